@@ -14,6 +14,7 @@
 import json
 
 import vlib
+import _tlcout
 
 
 def run(c, prefix):
@@ -31,13 +32,10 @@ def run(c, prefix):
             args += ["-pairs", 5, "-maxsegs", 8, "-maxcores", 10]
         c.run_driver(drv, args)
     r = c.validate("CombinatorTrace", "CombinatorTrace.cfg", trace, timeout=3000)
+    drift = _tlcout.renorm(r)
     # keep only the keys of this property (the other property's check reports its own)
     r.bad = [(l, k) for (l, k) in r.bad if k.startswith(prefix)]
     c.judge_trace(r, trace)
-    drift = {}
-    import re
-    for m in re.finditer(r'<<"VERIF-DRIFT", (\d+), "([^"]*)">>', r.out):
-        drift[m.group(2)] = drift.get(m.group(2), 0) + 1
     if drift:
         c.notes.append("MODEL-DRIFT (not a verdict): %s" % drift)
     st = r.stats
